@@ -4,6 +4,8 @@
    Lines (written by `vh window`), times in microseconds since the start of the run, every call bracketed by t0 <= t1:
      {"ev":"add","w":I,"v":V,"t0":..,"t1":..}            V unique and positive per window
      {"ev":"obs","w":I,"t0":..,"t1":..,"vals":[..]}       Samples() of window I
+     {"ev":"hotobs","w":I,"must":N,"missing":M,"spurious":S}   a window fed by four adders at a high pace: the driver
+                                                                applied the must-rule itself (too many samples for a trace)
      {"ev":"stats","n":N,"m":M,"counter":C,"min":..,"max":..,"avg":..,"expmin":..,"expmax":..,"expsum":..,"expcount":..,
       "freshkeys":K,"badfreshkeys":B}   B of K fresh keys, first used by all N goroutines at once, lost a sample
    Rule for obs (ReportOk of SlidingWindow.tla with measurement slack EPS):
@@ -44,6 +46,9 @@ Next == /\ l <= Len(Trace)
            CASE e.ev = "add" -> adds' = (e.w :> (AddsOf(e.w) \cup {[v |-> e.v, t0 |-> e.t0, t1 |-> e.t1]})) @@ adds
              [] e.ev = "obs" -> /\ LET v == ObsVerdict(e) IN IF v = "ok" THEN TRUE ELSE PrintT(<<"REJECT", l, v>>)
                                 /\ UNCHANGED adds
+             [] e.ev = "hotobs" -> /\ IF e.missing # 0 THEN PrintT(<<"REJECT", l, "live-sample-dropped">>)
+                                     ELSE IF e.spurious # 0 THEN PrintT(<<"REJECT", l, "spurious-sample">>) ELSE TRUE
+                                   /\ UNCHANGED adds
              [] e.ev = "stats" -> /\ LET v == StatsVerdict(e) IN IF v = "ok" THEN TRUE ELSE PrintT(<<"REJECT", l, v>>)
                                   /\ UNCHANGED adds
              [] OTHER -> UNCHANGED adds
